@@ -61,8 +61,13 @@ def symexec(func, path, env0=None, inliner=None, depth=0, track_mem=False):
             # strong update of a memory cell identified by its resolved lvalue (no aliasing between
             # syntactically different cells is assumed: the rule that asks for track_mem states why)
             mem = env.setdefault('__mem__', {})
-            vars_only = {k: v for k, v in env.items() if k != '__mem__'}
-            key = ev.lhs.subst(vars_only)
+            # the cell's address: pointer sub-expressions are evaluated in the current state (locals AND tracked memory)
+            lh = ev.lhs
+            if lh.ch:
+                nch = [resolve(c, env) for c in lh.ch]
+                key = _rebuild(lh, nch, lh.extra)
+            else:
+                key = lh
             old = mem.get(key.s, key)
             if ev.op == '=':
                 val = resolve(ev.rhs, env)
@@ -91,5 +96,13 @@ def symexec(func, path, env0=None, inliner=None, depth=0, track_mem=False):
                 sub = inliner(ev, out[-1][1], depth)
                 if sub:
                     out.extend(sub)
+    if depth == 0:
+        # pseudo-event carrying the state AFTER the last event of the path
+        end = Event('end')
+        end.block = path[-1][0] if path else None; end.idx = 1 << 30; end.loc = func.where()
+        snap = dict(env)
+        if track_mem:
+            snap['__mem__'] = dict(env.get('__mem__', {}))
+        out.append((end, snap))
     return out
 
